@@ -687,16 +687,23 @@ Fixpoint ti_abs (chars : text -> option (list cluster)) (paste : text) (os : lis
   | o :: r => fst (ti_abs_step chars paste o) :: ti_abs chars (snd (ti_abs_step chars paste o)) r
   end.
 
-(* Draw on observations: it returns; and when no earlier Draw has scrolled (offset 0
-   before) and prompt + text + scrolloff fit, the cursor is shown at prompt width + width
-   of the text before the cursor *)
-Definition ti_draw_ok (prompt : list cluster) (w : Z) (off_before : Z) (ob : ti_obs) : bool :=
+(* Draw on observations.  It returns; and
+   - full = true (the property as stated): whenever prompt + text fit the window (with a
+     column left for the cursor), the cursor is shown at prompt width + width of the text
+     before the cursor;
+   - full = false (what the widget does guarantee, theorem
+     C17_textinput_drawn_cursor_column_partial): the same, but only when no earlier Draw
+     has scrolled (offset 0 before) and the widget's 4-column scroll margin fits as well.
+   Cases that fail the first and pass the second are the recorded finding
+   "textinput-sticky-offset". *)
+Definition ti_draw_ok (full : bool) (prompt : list cluster) (w : Z) (off_before : Z) (ob : ti_obs) : bool :=
   let '(ocl, ocur, ooff, oout, oshown, _) := ob in
   (oout =? 0)
-  && (if (off_before =? 0) && (cl_width prompt + cl_width ocl + scrolloff <? w)
+  && (if (if full then cl_width prompt + cl_width ocl <? w
+          else (off_before =? 0) && (cl_width prompt + cl_width ocl + scrolloff <? w))
       then oshown =? cl_width prompt + cl_width (firstn (Z.to_nat ocur) ocl) else true).
 
-Fixpoint ti_spec_ok (prompt : list cluster) (al : list Z) (e : ideal cluster) (off : Z)
+Fixpoint ti_spec_ok (full : bool) (prompt : list cluster) (al : list Z) (e : ideal cluster) (off : Z)
          (steps : list ti_stepc) : bool :=
   match steps with
   | [] => true
@@ -705,18 +712,27 @@ Fixpoint ti_spec_ok (prompt : list cluster) (al : list Z) (e : ideal cluster) (o
       let e' := i_step (ti_isw (tbl_alnum al)) e (ti_iop o tbl) in
       (oout =? 0) && clusters_eqb ocl (i_text e') && (ocur =? i_index e')
       && (0 <=? ocur) && (ocur <=? zlen ocl) && reseg
-      && match o with ODraw w => ti_draw_ok prompt w off ob | _ => true end
-      && ti_spec_ok prompt al e' ooff rest
+      && match o with ODraw w => ti_draw_ok full prompt w off ob | _ => true end
+      && ti_spec_ok full prompt al e' ooff rest
   end.
 
 (* on every case, stable or not: every Update and every Draw returns normally *)
 Definition ti_returns_ok (steps : list ti_stepc) : bool :=
   forallb (fun s : ti_stepc => let '(_, _, (_, _, _, oout, _, _)) := s in oout =? 0) steps.
 
+(* the property as stated, unguarded *)
 Definition ti_case_violation (c : ti_case) : bool :=
   let '(prompt, al, stable, steps) := c in
-  if stable then negb (ti_spec_ok prompt al (mkIdeal [] []) 0 steps)
+  if stable then negb (ti_spec_ok true prompt al (mkIdeal [] []) 0 steps)
   else negb (ti_returns_ok steps).
+
+(* cases under the explicit guard of the finding textinput-sticky-offset: the stated
+   property fails, the guarded one holds *)
+Definition ti_case_known (c : ti_case) : bool :=
+  let '(prompt, al, stable, steps) := c in
+  stable && negb (ti_spec_ok true prompt al (mkIdeal [] []) 0 steps)
+  && ti_spec_ok false prompt al (mkIdeal [] []) 0 steps.
 
 Definition c17_ti_mismatches (cases : list ti_case) : list Z := bad_indices ti_case_mismatch cases.
 Definition c17_ti_violations (cases : list ti_case) : list Z := bad_indices ti_case_violation cases.
+Definition c17_ti_known (cases : list ti_case) : list Z := bad_indices ti_case_known cases.
